@@ -50,7 +50,12 @@ func (solarWeek *SolarWeek) GetIndex() int {
 	if offset < 0 {
 		offset += 7
 	}
-	return int(math.Ceil(float64(solarWeek.day+offset) / 7))
+	// 1582年10月只有21天，15日及以后按当月第几天计
+	day := solarWeek.day
+	if 1582 == solarWeek.year && 10 == solarWeek.month && day >= 15 {
+		day -= 10
+	}
+	return int(math.Ceil(float64(day+offset) / 7))
 }
 
 func (solarWeek *SolarWeek) GetIndexInYear() int {
